@@ -504,7 +504,9 @@ func blockContainerLayout(context *layoutContext, box_ Box, bottomSpace pr.Float
 	if lastInFlowChild == nil {
 		collapsedMargin := collapseMargin(*adjoiningMargins)
 		// top && bottom margin of this box
+		// (a box establishing a block formatting context never collapses through)
 		if (box.Height == pr.AutoF || box.Height == pr.Float(0)) &&
+			!establishesFormattingContext(box_) &&
 			getClearance(context, box, collapsedMargin) == nil &&
 			box.MinHeight == pr.Float(0) && box.BorderTopWidth == pr.Float(0) && box.PaddingTop == pr.Float(0) &&
 			box.BorderBottomWidth == pr.Float(0) && box.PaddingBottom == pr.Float(0) {
